@@ -93,7 +93,15 @@ class Event(object):
 
     def __call__(self, t, y, dy=None, **kw):
         self.calls += 1
-        return np.asarray(self.s * (self.h(t, y, dy) - self.c), dtype=np.asarray(y).dtype)
+        g = np.asarray(self.s * (self.h(t, y, dy) - self.c), dtype=np.asarray(y).dtype)
+        ret = self.p.get("ret", "0d")
+        if ret == "float":
+            return float(g)
+        if ret == "arr1":
+            return g.reshape(1)
+        if ret == "arr11":
+            return g.reshape(1, 1)
+        return g
 
     def g_exact(self, prob, t):
         y = prob.exact(t)
@@ -174,7 +182,10 @@ def event_params(draw, prob, t0, tf, terminal=None, allow_deriv=True):
     kinds = ["comp", "comp", "lin", "time"] + (["deriv"] if allow_deriv and prob["kind"] != "const" else []) + ["timeprod"]
     kind = draw(st.sampled_from(kinds))
     p = dict(h=kind, s=draw(st.sampled_from([1.0, 1.0, 10.0, 1e3, 1e6, 1e-3, 1e-6])) * draw(st.sampled_from([1.0, -1.0])),
-             direction=draw(st.sampled_from([0, 0, 1, -1])), terminal=bool(draw(st.booleans()) if terminal is None else terminal))
+             direction=draw(st.sampled_from([0, 0, 1, -1])), terminal=bool(draw(st.booleans()) if terminal is None else terminal),
+             # what the event function returns: a 0-d array, a Python float, or an array of shape (1,) / (1, 1) as `y - c` gives
+             # for a one-component state
+             ret=draw(st.sampled_from(["0d", "0d", "0d", "float", "arr1", "arr1", "arr11"])))
     if kind == "comp":
         p["i"] = draw(st.integers(0, n - 1))
     elif kind == "lin":
